@@ -6,7 +6,7 @@
 From Coq Require Import QArith.
 From TU Require Import Base C13_Model C13_Walk C13_F1 C13_Ws C13_Sp C13_Proofs.
 From TU Require C10_Model C11_Model C12_Model C18_Model.
-From TU Require UAX29_Model NFKC_Model C11_UAX29 C13_NSeam C13_NFKC C13_Raw C13_RawFl.
+From TU Require UAX29_Model NFKC_Model C11_UAX29 C13_NSeam C13_NFKC C13_Raw C13_RawFl C13_Fast.
 From Coq Require Reals Qreals.
 From Flocq Require Core IEEE754.BinarySingleNaN.
 From Coq Require Lra.
@@ -294,6 +294,16 @@ Print Assumptions sp_unchanged_n.
 Theorem check_run_n : forall v, premise_n v = true -> check_C13 (rawify v) (run_C13N v) = true.
 Proof. exact C13_Raw.check_run_n_l. Qed.
 Print Assumptions check_run_n.
+
+(** the extracted check evaluates the rational model with fractions reduced after every addition
+    ([run_C13_fast], needed for lists of hundreds of sequences): same values, same verdicts *)
+Theorem run_fast_eq : forall v, run_C13_fast v = run_C13 v.
+Proof. exact C13_Fast.run_fast_eq_l. Qed.
+Print Assumptions run_fast_eq.
+
+Theorem check_fast_eq : forall v out, check_C13_fast v out = check_C13 v out.
+Proof. exact C13_Fast.check_fast_eq_l. Qed.
+Print Assumptions check_fast_eq.
 
 (** KF3 is real in the model too: "x ¨" / "x" / "x ¨" in code-point mode yields the panic value *)
 Theorem kf3_panic_witness :
